@@ -51,7 +51,9 @@ def main():
             elif "minicbor-io/tests" in demo_txt:
                 dst_demo, democmd = "minicbor-io/tests/seed_demo.rs", "cargo test -p minicbor-io --test seed_demo --offline"
             elif "minicbor-serde/tests" in demo_txt:
-                dst_demo, democmd = "minicbor-serde/tests/seed_demo.rs", "cargo test -p minicbor-serde --features std --test seed_demo --offline"
+                dm = meta.get("demo", "")
+                feats = "" if ("without features" in dm or "no features" in dm or "no-alloc" in dm) and "--features std" not in dm else "--features std "
+                dst_demo, democmd = "minicbor-serde/tests/seed_demo.rs", f"cargo test -p minicbor-serde {feats}--test seed_demo --offline"
             else:
                 dst_demo, democmd = "minicbor-tests/tests/seed_demo.rs", "cargo test -p minicbor-tests --features std,derive --test seed_demo --offline"
             os.makedirs(os.path.dirname(os.path.join(WT, dst_demo)), exist_ok=True)
